@@ -202,4 +202,7 @@ MUTANTS = [
     ("C06", HN, "    resampling_mode.NEAREST: NpuResamplingMode.NEAREST,", "    resampling_mode.NEAREST: NpuResamplingMode.TRANSPOSE,", 1),
     ("C06", HN, "NpuShape3D(height=out_block.height, width=out_block.width, depth=out_block.depth)", "NpuShape3D(height=out_block.width, width=out_block.width, depth=out_block.depth)", 1),
     ("C06", HN, "NpuShape3D(height=out_block.height, width=out_block.width, depth=out_block.depth)", "NpuShape3D(width=out_block.width, height=out_block.height, depth=out_block.depth)", 0),
+    ("C09", SC, "if not (0 <= reduced_shift < (1 << 6)):", "if not (0 <= shift < (1 << 6)):", 1),
+    ("C09", SC, "reduced_multiplier = int((multiplier + (1 << 15)) >> 16) if multiplier < 32767 << 16 else 32767", "reduced_multiplier = min(32767, (multiplier + 32768) >> 16)", 0),
+    ("C09", SC, "reduced_multiplier = int((multiplier + (1 << 15)) >> 16) if multiplier < 32767 << 16 else 32767", "reduced_multiplier = int(multiplier >> 16) if multiplier < 32767 << 16 else 32767", 1),
 ]
